@@ -1,5 +1,6 @@
 // C18 extractor: one loop iteration of the sphere samplers of ImathRandom.h with a scripted generator (module C18Samplers).
 #include "sym.h"
+#include "c10frac.h" // FracS: Vec::length at exact fractions so that lean_tv covers the hollow / gaussSphere entries calling it
 #include "shapes.h"
 #include "main.h"
 OPAQUE_LENGTH (Vec2, "V2", 2)
